@@ -314,11 +314,14 @@ def enrol_extra(prop, tier, seed):
             for sw in (False, True):
                 for state in ("none", "s1"):
                     for params in ((False, True) if flow in ("wrapped", "rewrapped") else (False,)):
-                        ops.append(dict(op="Enrol", flow=flow, backend=be, sw=sw, state=state, params=params, subst="none"))
+                        ops.append(dict(op="Enrol", flow=flow, backend=be, sw=sw, state=state, params=params, subst="none", rekey=False))
+                # the same identity fetches a second time with a replaced encryption key (wrapper flows authorise from the request)
+                if flow in ("wrapped", "rewrapped"):
+                    ops.append(dict(op="Enrol", flow=flow, backend=be, sw=sw, state="none", params=False, subst="none", rekey=True))
             # node-side substitutions (one storage configuration per flow x back end in quick, all in thorough)
             for sw in ((False,) if tier == "quick" else (False, True)):
                 for subst in ("wrongKey", "tamper", "wrongServerPub", "nonce32", "nonceToken", "swapBundles"):
-                    ops.append(dict(op="Enrol", flow=flow, backend=be, sw=sw, state="none", params=False, subst=subst))
+                    ops.append(dict(op="Enrol", flow=flow, backend=be, sw=sw, state="none", params=False, subst=subst, rekey=False))
             n += 1
             out.append(dict(id="enr_%s_%s" % (flow, be), ops=ops))
     return out
@@ -331,7 +334,7 @@ def enrol_family():
         nontrivial=lambda p, l: l["res"] in ("issued", "subst"),
         mc=dict(quick=[("Enroll.tla", "MC_Enroll.cfg")], thorough=[("Enroll.tla", "MC_Enroll.cfg")]),
         gen=[], extra=enrol_extra,
-        rule={"*": "the full product flow (operator / token / wrapped / re-wrapped) x back end (in-memory, file, store-once) x storage wrapper x application state (x application params for the wrapper flows) of honest enrolments, each followed by ClientConfigs and a real protocol.Dial, plus six node-side substitutions of key or response fields per flow x back end; every observation judged by TLC against HonestViolations"},
+        rule={"*": "the full product flow (operator / token / wrapped / re-wrapped) x back end (in-memory, file, store-once) x storage wrapper x application state (x application params for the wrapper flows) of honest enrolments, each followed by ClientConfigs and a real protocol.Dial, plus six node-side substitutions of key or response fields per flow x back end, plus (wrapper flows) a second fetch of the same identity with a replaced encryption key; every observation judged by TLC against HonestViolations"},
         assumptions=["the enrolment itself is run through the public functions (not over the network); the dial afterwards goes through a real InterceptingListener over the same server storage",
                      "TLC checks completion (liveness under weak fairness) and the refuse-unless-bound rule of the node on the Enroll.tla model for every configuration"],
     )
